@@ -45,6 +45,21 @@ def embedded(decl):
                    "fields": [{"k": "Emb", "name": "emb", "cls": "C1", "over": [], "n": len(fs), "mv": NOMV}] + fs}}
 
 
+def two(decl):
+    """the same fields behind a SECOND described field (x = Int(1).describe(Auto(lambda pkt: 7)), always serialised as 07):
+    every descriptor of a class has its hooks run, not only one of them"""
+    extra = u1("x", {"kind": "auto", "e": {"e": "c", "v": 7}})
+    return {"C0": {"opts": decl["C0"]["opts"], "fields": [extra] + decl["C0"]["fields"]}}
+
+
+def nested(decl):
+    """the class one level down, behind Ref(C1(dsc=9)): the prototype was BUILT with the described keyword; packets parsed
+    through the reference are ordinary parsed packets all the same (nothing was assigned to them)"""
+    return {"C1": decl["C0"],
+            "C0": {"opts": decl["C0"]["opts"],
+                   "fields": [{"k": "Ref", "name": "s", "cls": "C1", "over": [{"n": "dsc", "v": {"t": "int", "i": 9}}], "mv": NOMV}]}}
+
+
 def tval(kind, t):
     return list(t) if kind == "rep" else bytes(t)
 
@@ -54,15 +69,19 @@ def tabs(kind, v):
 
 
 class Live:
-    def __init__(self, cls, kind):
-        self.cls, self.kind = cls, kind
+    def __init__(self, cls, kind, lead=False, outer=None):
+        self.cls, self.kind, self.lead = cls, kind, lead        # lead: the class starts with the extra described field x
+        self.outer = outer          # the packet under test is the field `s` of an instance of this class
         self.p = cls()
+        self.o = outer(s=self.p) if outer else None
 
     def do(self, op, arg):
         from bisturi.packet import PacketError
         ok, out = True, []
         if op == "new":
             self.p = self.cls() if arg[0] == -1 else self.cls(dsc=arg[0])
+            if self.outer:
+                self.o = self.outer(s=self.p)
         elif op == "set_tracked":
             self.p.trk = tval(self.kind, arg)
         elif op == "set_described":
@@ -71,12 +90,18 @@ class Live:
             del self.p.dsc
         elif op == "unpack":
             try:
-                self.p = self.cls.unpack(bytes(arg))
+                if self.outer:
+                    self.o = self.outer.unpack(bytes(arg))
+                    self.p = self.o.s
+                else:
+                    self.p = self.cls.unpack(bytes([9] if self.lead else []) + bytes(arg))      # (x parses as 9, reads as 7)
             except PacketError:
                 ok = False
         elif op == "pack":
             try:
-                out = list(self.p.pack())
+                out = list((self.o if self.outer else self.p).pack())
+                if self.lead:
+                    out = out[1:] if out[:1] == [7] else ["x was serialised as %r, it reads as 7" % (out[:1],)] + out
             except PacketError:
                 ok = False
         return {"op": op, "arg": list(arg), "ok": ok, "out": out, "hasdict": hasattr(self.p, "__dict__"),
@@ -98,9 +123,15 @@ def _wrun(chunk):
     bad = []
     n = 0
     for c in chunk:
-        for gen, emb in ((rp.GEN_OFF, False), (None, False), (rp.GEN_OFF, True), (None, True)):
-            cls = _W["sc"].load(embedded(DECLS[c["kind"]]) if emb else DECLS[c["kind"]], gen).C0
-            live = Live(cls, c["kind"])
+        for gen, emb in ((rp.GEN_OFF, False), (None, False), (rp.GEN_OFF, True), (None, True), (rp.GEN_OFF, "two"), (None, "two"),
+                         (rp.GEN_OFF, "nested"), (None, "nested")):
+            decl = DECLS[c["kind"]]
+            if emb == "nested":
+                mod = _W["sc"].load(nested(decl), gen)
+                live = Live(mod.C1, c["kind"], outer=mod.C0)
+            else:
+                cls = _W["sc"].load(two(decl) if emb == "two" else embedded(decl) if emb else decl, gen).C0
+                live = Live(cls, c["kind"], lead=(emb == "two"))
             n += 1
             for i, e in enumerate(c["hist"]):
                 try:
